@@ -58,6 +58,14 @@ class World(object):
         other = pysmt.environment.Environment()
         self.bad_map_foreign = {p: other.formula_manager.Symbol("zf", BOOL)}
         self.bad_map_funsym = {x: f}
+        # a formula with an operator only the type checker knows (registered as part of the world's set-up): every other
+        # walker meets it in the MIDDLE of its traversal and fails there
+        from pysmt.type_checker import SimpleTypeChecker
+        if not World._CUSTOM2:
+            World._CUSTOM2.append(op.new_node_type(node_str="verif_custom2"))
+        self.env.add_dynamic_walker_function(World._CUSTOM2[0], SimpleTypeChecker, SimpleTypeChecker.walk_bool_to_bool)
+        self.custom_f = m.And(m.Or(q, le), m.Not(m.And(p, m.create_node(node_type=World._CUSTOM2[0], args=(m.Or(p, q),)))),
+                              m.Equals(m.Function(f, [x]), y))
         # a long-lived substitution map whose CONTENT is changed between two uses (same object, same address)
         self.shared_map = {y: m.Plus(x, m.Int(1))}
         self.known = set(m.symbols)
@@ -152,7 +160,8 @@ class World(object):
             ("prenex(phi3)", lambda: self._call(lambda: rw.prenex_normal_form(self.phi3, self.env))),
             ("cnf(phi2)", lambda: self._call(lambda: rw.cnf(self.phi2, self.env))),
             ("spellings", lambda: self._call(lambda: [m.Real(2.0), m.Real((4, 2)), m.Int(2), m.And([q, p]), m.BV("0101"),
-                                                      m.Real(Fraction(1, 2)), m.Times(x, m.Int(2)), m.Symbol("fresh_user", INT)], "terms")),
+                                                      m.Real(Fraction(1, 2)), m.Times(x, m.Int(2)), m.Symbol("fresh_user", INT),
+                                                      m.Int(-2), m.Real(-3)], "terms")),
             ("get_logic(len(st)<=3)", lambda: self._call(lambda: "%s %s" % (get_logic(self.str_len, self.env), get_logic(self.bv2nat, self.env)), "text")),
             ("get_logic(const array)", lambda: self._call(lambda: get_logic(self.const_arr, self.env), "text")),
             ("subst shared_map phi3 (quantified)", lambda: self._call(lambda: self.phi3.substitute(self.shared_map))),
@@ -167,7 +176,7 @@ class World(object):
 
     def c15_good_calls(self):
         g = self.good_calls()
-        return [g[1], g[3], g[12], g[13], g[7]]
+        return [g[1], g[3], g[12], g[13], g[7], g[10]]
 
     def fail_calls(self):
         m, s = self.m, self.s
@@ -199,6 +208,14 @@ class World(object):
             ("hr parse error", lambda: self._call(lambda: self.hr.parse("(x + ) <= y"))),
             ("subst map with a foreign value", lambda: self._call(lambda: self.phi1.substitute(self.bad_map_foreign))),
             ("subst map with a function symbol as value", lambda: self._call(lambda: self.phi2.substitute(self.bad_map_funsym))),
+            # an operator without handler met in the middle of a traversal (size with two measures, simplify, free
+            # variables, substitution, SMT-LIB printing)
+            ("size(custom formula, depth)", lambda: self._call(lambda: self.env.sizeo.get_size(self.custom_f, measure=3), "text")),
+            ("size(custom formula, symbols)", lambda: self._call(lambda: self.env.sizeo.get_size(self.custom_f, measure=4), "text")),
+            ("simplify(custom formula)", lambda: self._call(lambda: self.custom_f.simplify())),
+            ("free variables(custom formula)", lambda: self._call(lambda: self.env.fvo.get_free_variables(self.custom_f), "terms")),
+            ("subst s1 custom formula", lambda: self._call(lambda: self.custom_f.substitute({x: m.Plus(y, m.Int(1))}))),
+            ("to_smtlib(custom formula)", lambda: self._call(lambda: to_smtlib(self.custom_f, daggify=True), "text")),
             # failing scripts that have already changed the parser's state when they fail: a logic under which
             # numerals are Reals, a definition, an open let binding
             ("parse LRA script, unknown command", lambda: self._call(lambda: self.parser.get_script(io.StringIO(
@@ -211,6 +228,7 @@ class World(object):
         return calls
 
     _CUSTOM = []
+    _CUSTOM2 = []
 
     def _custom_op(self):
         if not World._CUSTOM:
@@ -227,6 +245,10 @@ class World(object):
             ("invalid constant spellings", lambda: self._call(lambda: " ".join(self._outcome(fn) for fn in (
                 lambda: m.Int(2.0), lambda: m.Int(0.0), lambda: m.Int(False), lambda: m.Int(Fraction(2)), lambda: m.Int(True), lambda: m.Real(True), lambda: m.Int(7.0),
                 lambda: m.Real("2"))), "text"), False),
+            # elided printing (str() prints to depth 5, threshold=k to depth k) of formulas that may have been printed in full
+            # (before any probe prints them in full)
+            ("str / thresholded serialize", lambda: self._call(lambda: " | ".join(
+                [str(self.phi1), self.phi3.serialize(threshold=2), self.phi4.serialize(threshold=1), str(self.phi4)]), "text"), False),
             # (before any other probe substitutes: a substituter that remembered the last map it looked at would be reset)
             ("subst with the map object rejected last", lambda: self._call(lambda: " ".join(self._outcome(fn) for fn in (
                 lambda: self.phi2.substitute(self.bad_map_foreign), lambda: self.phi4.substitute(self.bad_map_funsym),
@@ -257,6 +279,10 @@ class World(object):
                                                                        get_logic(self.bv_only, self.env)), "text"), False),
             ("get_theory small", lambda: self._call(lambda: " | ".join(str(self.env.theoryo.get_theory(z)) for z in
                                                                         (self.str_only, self.int_only, self.bv_only, self.phi1)), "text"), False),
+            # a symbol created AFTER the constants it is multiplied with may already exist (node ids order the factors)
+            ("simplify x + late*(-2) + r*(-3)", lambda: self._call(lambda: [
+                m.Plus(x, m.Times(m.Symbol("late_w", INT), m.Int(-2))).simplify(),
+                m.Plus(m.Times(m.Real(-3), m.Symbol("late_r", REAL)), m.Real(1)).simplify()], "terms"), False),
             ("sizes phi1", lambda: self._call(lambda: [self.phi1.size(k) for k in range(6)], "text"), False),
             ("qf+types phi3", lambda: self._call(lambda: "%s %s" % (self.env.qfo.is_qf(self.phi3), sorted(map(str, self.env.typeso.get_types(self.phi3)))), "text"), False),
         ]
